@@ -4,6 +4,9 @@ one canonical output line per operation.  Imports only `Kanzi.Model.*` (core Lea
 -/
 import Kanzi.Model.Normalize
 import Kanzi.Model.Protocol
+import Kanzi.Drv.Stream
+import Kanzi.Drv.TrSmall
+import Kanzi.Drv.EntSmall
 
 open Kanzi
 
@@ -156,4 +159,8 @@ def main (args : List String) : IO UInt32 := do
   match args with
   | ["norm"] => loop stdin stdout Drv.norm; return 0
   | ["proto"] => loop stdin stdout Drv.proto; return 0
+  | ["sw"] => loop stdin stdout Kanzi.Drv.sw; return 0
+  | ["sr"] => loop stdin stdout Kanzi.Drv.sr; return 0
+  | ["trsmall"] => loop stdin stdout Kanzi.Drv.trsmall; return 0
+  | ["entsmall"] => loop stdin stdout Kanzi.Drv.entsmall; return 0
   | _ => IO.eprintln "usage: kmodel <norm>"; return 2
